@@ -287,11 +287,27 @@ func (ck *checker) runPipelined(caseID string, tx bool, viaFunc bool, prog []op,
 				noCmdOps++
 			}
 		}
+		var cmdIdx []int // the calls of this segment that queue a command
+		for i, w := range wseg {
+			if len(w.argv) == 1 {
+				cmdIdx = append(cmdIdx, i)
+			}
+		}
 		if noCmdOps > 0 {
 			taint = firstNoCmd(seg, wseg)
-		} else if taint != "" {
-			noCmdOps = 1
+			run.Observe("segments_with_call_that_queues_nothing", 1)
+			firstNo := 0
+			for i, w := range wseg {
+				if len(w.argv) == 0 {
+					firstNo = i
+					break
+				}
+			}
+			if len(cmdIdx) > 0 && cmdIdx[len(cmdIdx)-1] > firstNo {
+				run.Observe("commands_queued_after_call_that_queues_nothing", 1)
+			}
 		}
+		nocmdCtx := taint != "" // a call that queued nothing sits (or sat) on this pipeline object: name findings after it
 		n0 := e.s.LogLen()
 		var cmders []R
 		var execErr error
@@ -304,8 +320,14 @@ func (ck *checker) runPipelined(caseID string, tx bool, viaFunc bool, prog []op,
 					return
 				}
 				held[i] = c
-				if noCmdOps == 0 && p.Len() != i+1 {
-					run.Violation("len", mode+"/"+o.name, wit(map[string]any{"after_queueing": i + 1, "len": p.Len()}))
+				wantLen := 0
+				for _, j := range cmdIdx {
+					if j <= i {
+						wantLen++
+					}
+				}
+				if p.Len() != wantLen {
+					run.Violation("len", mode+"/"+o.name, wit(map[string]any{"calls_queued": i + 1, "commands_queued": wantLen, "len": p.Len()}))
 				}
 			}
 			if tx {
@@ -337,7 +359,7 @@ func (ck *checker) runPipelined(caseID string, tx bool, viaFunc bool, prog []op,
 				}
 			}
 		}()
-		if queuePanic != "" && noCmdOps > 0 {
+		if queuePanic != "" && nocmdCtx {
 			// a reply converted by the wrong Cmder
 			run.Violation("misaligned-by-call-without-command", mode+"/"+taint, wit(map[string]any{"panic": queuePanic}))
 			return
@@ -410,7 +432,7 @@ func (ck *checker) runPipelined(caseID string, tx bool, viaFunc bool, prog []op,
 					g = append(g, ev.Argv)
 				}
 				key := mode + "/" + names(seg)
-				if noCmdOps > 0 {
+				if nocmdCtx {
 					key = mode + "/after-call-without-command"
 				}
 				run.Violation("pipeline-wire", key, wit(map[string]any{"want": wantArgv, "received": g}))
@@ -447,7 +469,7 @@ func (ck *checker) runPipelined(caseID string, tx bool, viaFunc bool, prog []op,
 			if !same(g, wseg[i].res) {
 				bad = true
 				cls, key := "result-mismatch", mode+"/"+seg[i].name
-				if noCmdOps > 0 {
+				if nocmdCtx {
 					cls, key = "misaligned-by-call-without-command", mode+"/"+taint
 				}
 				run.Violation(cls, key, wit(map[string]any{"index": pos - n + i, "call": seg[i].desc, "direct": wseg[i].res.String(), "pipelined": g.String()}))
@@ -462,40 +484,59 @@ func (ck *checker) runPipelined(caseID string, tx bool, viaFunc bool, prog []op,
 				run.Observe("error_results_compared", 1)
 			}
 		}
-		// ---- the slice Exec returns: the same results in queue order
+		// ---- the slice Exec returns: one Cmder per queued command, in queue order, with the results of the direct calls
 		if !bad {
-			switch {
-			case nCmds == 0:
-				if len(cmders) != 0 || execErr != nil {
-					// an empty pipeline sends nothing and returns nothing
-					if noCmdOps == 0 {
-						run.Violation("empty-exec", mode, wit(map[string]any{"cmders": len(cmders), "err": fmt.Sprint(execErr)}))
-					}
+			cls := func(c string) string {
+				if nocmdCtx {
+					return "misaligned-by-call-without-command"
 				}
-			case len(cmders) == len(seg):
-				for i := range cmders {
-					if g := capture(cmders[i]); !same(g, wseg[i].res) {
-						cls, key := "returned-cmders-mismatch", mode+"/"+seg[i].name
-						if noCmdOps > 0 {
-							cls, key = "misaligned-by-call-without-command", mode+"/"+taint
-						}
-						run.Violation(cls, key, wit(map[string]any{"index": i, "call": seg[i].desc, "direct": wseg[i].res.String(), "returned": g.String()}))
+				return c
+			}
+			keyOf := func(k string) string {
+				if nocmdCtx {
+					return mode + "/" + taint
+				}
+				return mode + "/" + k
+			}
+			switch {
+			case len(cmdIdx) == 0:
+				// an empty pipeline sends nothing and returns nothing
+				if len(cmders) != 0 || execErr != nil {
+					run.Violation(cls("empty-exec"), keyOf("empty"), wit(map[string]any{"cmders": len(cmders), "err": fmt.Sprint(execErr)}))
+					bad = true
+				}
+			case len(cmders) != len(cmdIdx):
+				run.Violation(cls("returned-cmders-count"), keyOf(names(seg)), wit(map[string]any{"returned": len(cmders), "commands_queued": len(cmdIdx), "calls": len(seg)}))
+				bad = true
+			default:
+				for j, i := range cmdIdx {
+					if g := capture(cmders[j]); !same(g, wseg[i].res) {
+						run.Violation(cls("returned-cmders-mismatch"), keyOf(seg[i].name), wit(map[string]any{"index": j, "call": seg[i].desc, "direct": wseg[i].res.String(), "returned": g.String()}))
 						bad = true
 						break
 					}
 				}
-			default:
-				run.Violation("returned-cmders-count", mode+"/"+names(seg), wit(map[string]any{"returned": len(cmders), "queued": len(seg)}))
-				bad = true
 			}
 		}
-		// ---- Exec's error is the first command error
-		if !bad && noCmdOps == 0 && nCmds > 0 {
+		// ---- Exec's error is the first error among the queued commands
+		if !bad && len(cmdIdx) > 0 {
+			firstErr, hasErr = "", false
+			for _, i := range cmdIdx {
+				if wseg[i].res.HasErr {
+					firstErr, hasErr = wseg[i].res.Err, true
+					break
+				}
+			}
 			if hasErr {
 				run.Observe("exec_first_error_checked", 1)
 			}
 			if (execErr != nil) != hasErr || (hasErr && execErr.Error() != firstErr) {
-				run.Violation("exec-error", mode+"/"+names(seg), wit(map[string]any{"exec_err": fmt.Sprint(execErr), "first_command_error": firstErr, "any_command_error": hasErr}))
+				key := mode + "/" + names(seg)
+				c := "exec-error"
+				if nocmdCtx {
+					c, key = "misaligned-by-call-without-command", mode+"/"+taint
+				}
+				run.Violation(c, key, wit(map[string]any{"exec_err": fmt.Sprint(execErr), "first_command_error": firstErr, "any_command_error": hasErr}))
 			}
 		}
 		if tx {
@@ -746,6 +787,12 @@ func (ck *checker) oneCase(t *testing.T, caseNo int, rng *rand.Rand, methods []r
 		}
 	}
 
+	// in a third of the programs a call that queues nothing (Do without arguments) stands ahead of later commands
+	if rng.Intn(3) == 0 {
+		at := rng.Intn(len(cand)/2 + 1)
+		cand = append(cand[:at], append([]op{doNothing()}, cand[at:]...)...)
+	}
+
 	// probe on a scratch server: calls that panic on their arguments in direct mode are not part of the program;
 	// calls that send several commands are not "one queued command" either
 	probeEnv, err := newEnv()
@@ -854,5 +901,5 @@ func TestC41(t *testing.T) {
 	}
 	run.Extra("methods_compared", len(ms))
 	run.Require("tx_elements_mapped", "tx_full_checked", "tx_execabort", "pipeline_results_compared", "error_results_compared", "exec_first_error_checked",
-		"watch_abort_real", "watch_no_conflict", "watch_abort_fault", "discard_checked", "reused_after_exec", "tx_batches_on_wire")
+		"watch_abort_real", "watch_no_conflict", "watch_abort_fault", "discard_checked", "reused_after_exec", "tx_batches_on_wire", "commands_queued_after_call_that_queues_nothing")
 }
